@@ -65,3 +65,42 @@ func optConst(c *Ctx) {
 		}
 	}
 }
+
+// optLiterals: constant tables - literals whose constants are equal as map keys or as values but not
+// the same constant (0.0 and -0.0, 1 and 1u and 1.0 and '\x01', "" and empty bytes), folded and unfolded
+// ones side by side in one constant table, uint literals with the top bit set.  Optimized vs unoptimized.
+func optLiterals(c *Ctx) {
+	progs := []string{
+		"x := 0.0\nreturn [x, -0.0]",
+		"return [0.0, -1 * 0.0, 0.0 * -1, -0.0, 0.0]",
+		"a := -0.0\nb := 0.0\nreturn [a, b, 1 / a, 1 / b]",
+		"f := func() { return 0.0 }\ng := func() { return -0.0 }\nreturn [f(), g(), -f(), -g()]",
+		"return [1, 1u, 1.0, '\\x01', true, 1 == 1u, 1 + 0u, 1 + 0.0]",
+		"return [18446744073709551615u / 2u, 18446744073709551615u % 10u, 9223372036854775808u >> 63u, 9223372036854775808u >> 1u, 18446744073709551615u * 2u]",
+		"return [9223372036854775808u / 3u, 9223372036854775809u % 2u, 18446744073709551615u - 1u, 18446744073709551615u + 1u, 1u << 63u, (1u << 63u) >> 62u]",
+		"return [9223372036854775807 + 1, -9223372036854775807 - 2, 9223372036854775807 * 2, 1 << 63, 1 << 64, -1 >> 70, 5 / -2, -5 % 3]",
+		"return ['a' + 1, 'a' - 'b', 'a' * 2u, 1u - 2u, 'z' - 200, 2.5 % 2.0 == 0.5]",
+		"const k = 0.0\nreturn [k, -k, k * -1, -0.0 == k, string(-k)]",
+	}
+	for pi, src := range progs {
+		bc0, err0 := ugo.Compile([]byte(src), ugo.CompilerOptions{NoOptimize: true})
+		if err0 != nil {
+			c.Count("optliterals:noopt-compile-error")
+			continue
+		}
+		out0 := runPlain(bc0, ugo.Map{}, nil)
+		c.Count("optliterals:" + strings.SplitN(strings.TrimPrefix(out0, "out="), " ", 2)[0])
+		for _, lim := range []int{0, 1, 2, 5} {
+			bc1, err1 := ugo.Compile([]byte(src), ugo.CompilerOptions{OptimizerLimit: lim})
+			if err1 != nil {
+				if !strings.Contains(err1.Error(), "Optimizer Error") {
+					c.Violation(PropViolation{"C01", "optimizer on: compile fails with a non-optimizer error: " + semFirstLine(err1.Error()), src, fmt.Sprintf("C01:optliterals-compile-error:%d", pi)})
+				}
+				continue
+			}
+			if out1 := runPlain(bc1, ugo.Map{}, nil); out1 != out0 {
+				c.Violation(PropViolation{"C01", fmt.Sprintf("literal constants: optimized (limit %d) and unoptimized runs differ: %s  vs  %s", lim, out1, out0), src, fmt.Sprintf("C01:opt-differs:literals:%d", pi)})
+			}
+		}
+	}
+}
